@@ -269,6 +269,9 @@ pub fn run(case: &Value) -> Value {
                 let mut headers: Vec<(String, String)> =
                     parts.headers.iter().map(|(k, v)| (k.as_str().to_owned(), to_hex(v.as_bytes()))).collect();
                 headers.sort();
+                // what the transport will be told about the body length before a single frame is read
+                let hint = http_body::Body::size_hint(&body);
+                let (hint_lower, hint_upper) = (hint.lower(), hint.upper());
                 let mut data = Vec::new();
                 let mut frames = Vec::new();
                 let mut trailers: Vec<(String, String)> = Vec::new();
@@ -294,7 +297,7 @@ pub fn run(case: &Value) -> Value {
                     }
                 }
                 json!({"status": parts.status.as_u16(), "headers": headers, "body": to_hex(&data), "frames": frames,
-                       "trailers": trailers, "body_error": body_error})
+                       "trailers": trailers, "body_error": body_error, "size_hint": [hint_lower, hint_upper]})
             }
         }
     });
